@@ -60,6 +60,12 @@ class WcBase(HookMixin, WorkChain):
         fut.add_done_callback(done)
         return obj
 
+    def to_context(self, **kwargs):
+        # the public registration method is an extension point (an application wraps / converts what it is given):
+        # a returned ToContext has to come through here as well
+        world.cur().extra.setdefault('to_context_keys', {}).setdefault(self.pid, []).extend(kwargs)
+        return super().to_context(**kwargs)
+
     def _run_step(self, name):
         _hook_point(self, 'step:' + name, 'entry')  # before any effect of the step (mid-step checkpoints are taken here)
         k = self._count(name)
